@@ -526,7 +526,13 @@ class C12(Prop):
 
     def _excluded_ids(self):
         env = [s for s in os.environ.get("NMV_C12_EXCLUDE", "").split(",") if s]
-        return set(KNOWN_IDS) | set(env)
+        if C12._listed is None:
+            from ..core import load_known
+            C12._listed = {e["id"] for e in load_known("C12") if e.get("status") == "known"}
+        # only classes that are still listed as known findings are excluded (a repaired class is searched again)
+        return (set(KNOWN_IDS) & C12._listed) | set(env)
+
+    _listed = None
 
     def _finding(self, case):
         fs = self._findings(case)
